@@ -13,17 +13,19 @@ LEVEL = "translation_validation"
 MC_CFG = "SPECIFICATION Spec\nINVARIANT TypeOK\nINVARIANT NoAnswerWithoutHandler\nINVARIANT RaiseBeforeUnaryAnswer\nPROPERTY EventuallyTerminal\nCHECK_DEADLOCK FALSE\n"
 
 FIXED = {
-    "svc/api.proto": 'syntax = "proto3";\npackage svc;\nimport "svc/types/t.proto";\nimport "google/protobuf/empty.proto";\nimport "google/protobuf/wrappers.proto";\n'
+    "svc/api.proto": 'syntax = "proto3";\npackage svc;\nimport "svc/types/t.proto";\nimport "google/protobuf/empty.proto";\nimport "google/protobuf/wrappers.proto";\nimport "google/protobuf/timestamp.proto";\nimport "google/protobuf/duration.proto";\n'
                      "message Req { int32 id = 1; string q = 2; }\nmessage Rep { repeated string items = 1; svc.types.Kind kind = 2; }\n"
                      "service Search {\n  rpc Find (Req) returns (Rep);\n  rpc list_all (Req) returns (stream Rep);\n"
                      "  rpc UploadMany (stream svc.types.Chunk) returns (Rep);\n  rpc chatStream (stream Req) returns (stream svc.types.Chunk);\n"
                      "  rpc Ping (google.protobuf.Empty) returns (google.protobuf.Empty);\n  rpc GetHTTPStatus (svc.types.Chunk) returns (google.protobuf.StringValue);\n"
-                     "  rpc X (Req) returns (Req);\n}\n"
+                     "  rpc X (Req) returns (Req);\n  rpc Now (google.protobuf.Empty) returns (google.protobuf.Timestamp);\n"
+                     "  rpc Wait (google.protobuf.Duration) returns (stream google.protobuf.Timestamp);\n}\n"
                      "service Second { rpc Find (Rep) returns (Req); rpc do_it_2 (stream Rep) returns (stream Rep); }\n",
     "svc/types/t.proto": 'syntax = "proto3";\npackage svc.types;\nenum Kind { KIND_UNKNOWN = 0; KIND_A = 1; }\nmessage Chunk { bytes data = 1; int64 offset = 2; }\n',
 }
-KW_VALUES = {"timeout": 5000.0, "deadline": 3000.0, "metadata": "stub"}
-CALL_VALUES = {"timeout": 7000.0, "deadline": 9000.0, "metadata": "call"}
+# (in units of 1000 s; every order between call-level and stub-level values occurs, so that dropping either side shows)
+KW_VALUES = {"timeout": 5000.0, "deadline": 6000.0, "metadata": "stub"}
+CALL_VALUES = {"timeout": [2000.0, 8000.0], "deadline": [4000.0, 9000.0], "metadata": ["call"]}
 STATUSES = ["NOT_FOUND", "PERMISSION_DENIED", "UNAVAILABLE", "ALREADY_EXISTS"]
 
 
@@ -49,7 +51,7 @@ def plans_for(prog, rnd, quick):
         cs = []
         for c in calls:
             cc = rnd.choice(call_combos)
-            kw = {k: (CALL_VALUES[k] if on else None) for k, on in zip(("timeout", "deadline", "metadata"), cc)}
+            kw = {k: (rnd.choice(CALL_VALUES[k]) if on else None) for k, on in zip(("timeout", "deadline", "metadata"), cc)}
             # explicit but *falsy* per-call values still take precedence: no metadata at all ({} / [] / ()), a zero timeout
             x = rnd.random()
             if x < .2:
@@ -119,7 +121,7 @@ def run(ctx):
                 "response stream length 0..2 x sync / async request source x stub-level and call-level timeout / deadline / metadata in "
                 "{None, set} and call-level explicit empty metadata ({} / [] / ()) / zero timeout; each call is made in-process over grpclib.testing.ChannelFor; non-trivial = streaming or non-default kwargs")
     ctx.assumptions = ["grpclib 0.4.9 in-process channel (grpclib.testing.ChannelFor) as transport",
-                       "the deadline seen by the server is compared in units of 1000 s (call 7000/9000 s, stub 5000/3000 s), so timing jitter cannot matter"]
+                       "the deadline seen by the server is compared in units of 1000 s (call 2000|8000 / 4000|9000 s, stub 5000 / 6000 s), so timing jitter cannot matter"]
     ctx.mc("Grpc", MC_CFG, name="Grpc", coverage=True, expect_actions=("Issue", "Invoke", "Deliver", "Answer", "Finish"))
     protoc._tools(ctx.work)
     rnd = ctx.rnd
